@@ -17,7 +17,13 @@ TMOD = 'pysyncobj/tcp_connection.py'
 TC = lambda n: '_TcpConnection__' + n
 DISCONNECTED, CONNECTING, CONNECTED = 0, 1, 2
 ARR = z3.ArraySort(I_, I_)
-VALID = z3.Function('payload_valid', ARR, I_, I_, z3.BoolSort())     # zlib.decompress and pickle.loads both succeed
+ZVALID = z3.Function('payload_zlib_valid', ARR, I_, I_, z3.BoolSort())       # zlib.decompress succeeds
+PVALID = z3.Function('payload_pickle_valid', ARR, I_, I_, z3.BoolSort())     # pickle.loads of the decompressed bytes succeeds
+
+
+def VALID(A, lo, n):
+    return z3.And(ZVALID(A, lo, n), PVALID(A, lo, n))
+
 MSGOF = z3.Function('payload_message', ARR, I_, I_, I_)              # the message they yield
 ZARR = z3.Function('frame_payload_bytes', I_, ARR)                    # zlib.compress(pickle.dumps(m), 3)
 ZLEN = z3.Function('frame_payload_len', I_, I_)
@@ -105,8 +111,8 @@ def ext_decompress(I, a, k):
     w = a[0]
     if not isinstance(w, Win):
         raise Undecided('zlib.decompress of %r' % (w,))
-    ok = VALID(w.A, to_z3(w.lo), to_z3(w.n))
-    if not I.ctx.decide(ok, 'payload-valid'):
+    ok = ZVALID(w.A, to_z3(w.lo), to_z3(w.n))
+    if not I.ctx.decide(ok, 'payload-zlib-valid'):
         I.raise_('ZlibError')
     return Decompressed(w)
 
@@ -116,6 +122,12 @@ def ext_loads(I, a, k):
     if not isinstance(d, Decompressed):
         raise Undecided('pickle.loads of %r' % (d,))
     w = d.w
+    # T-PICKLE: unpickling bytes that are not a pickle of an importable value may raise *any* exception type
+    # (UnpicklingError, EOFError, IndexError, KeyError, ImportError, AttributeError, ...)
+    if not I.ctx.decide(PVALID(w.A, to_z3(w.lo), to_z3(w.n)), 'payload-pickle-valid'):
+        from pyvc.interp import EXC_PARENT
+        EXC_PARENT.setdefault('ArbitraryUnpickleError', 'Exception')
+        I.raise_('ArbitraryUnpickleError')
     return MsgV(MSGOF(w.A, to_z3(w.lo), to_z3(w.n)))
 
 
